@@ -108,7 +108,7 @@ class RunTest:
             if self._exceptions:
                 # One or more caught exceptions, now trigger the test's
                 # reporting method for just one.
-                e = self._exceptions.pop()
+                e = self._pick_exception()
                 for exc_class, handler in self.handlers:
                     if isinstance(e, exc_class):
                         handler(self.case, self.result, e)
@@ -119,6 +119,24 @@ class RunTest:
         finally:
             result.stopTest(self.case)
         return result
+
+    def _pick_exception(self):
+        """Choose the caught exception that decides the single outcome.
+
+        An exception that no handler claims (KeyboardInterrupt, SystemExit)
+        wins, so that it is passed to last_resort and re-raised whatever a
+        later stage raised.  Otherwise the most recent exception is used,
+        except that a skip or an expected failure never hides a failure or
+        an error raised by another stage.
+        """
+        for e in self._exceptions:
+            if not any(isinstance(e, exc_class) for exc_class, _ in self.handlers):
+                return e
+        non_failing = getattr(self.case, "_non_failing_exceptions", ())
+        for e in reversed(self._exceptions):
+            if not isinstance(e, non_failing):
+                return e
+        return self._exceptions[-1]
 
     def _run_core(self):
         """Run the user supplied test code."""
